@@ -385,8 +385,10 @@ Lemma loop_attrs_post : forall fuel offset e att l,
     cbn [get_operation]. destruct (Nat.ltb_spec offset e) as [Hlt|Hge]; [|cbn; lia].
     gbind (fun _ : N => True); [apply rd_good; lia|]. intros ch _.
     assert (Htwo : forall sym yes no, good (fun r : N * nat => offset <= snd r /\ (snd r <= e \/ snd r = offset))
-              (bind (rd content 23 (S offset)) (fun nx => Ok ((if N.eqb nx sym then yes else no), offset)))).
-    { intros sym yes no. gbind (fun _ : N => True); [apply rd_good; lia|]. intros nx _. cbn. lia. }
+              (if S offset <? e then bind (rd content 23 (S offset)) (fun nx => Ok ((if N.eqb nx sym then yes else no), offset))
+               else Ok (no, offset))).
+    { intros sym yes no. destruct (Nat.ltb_spec (S offset) e); [|cbn; lia].
+      gbind (fun _ : N => True); [apply rd_good; lia|]. intros nx _. cbn. lia. }
     assert (Hrec : forall o2, offset < o2 <= e -> good (fun r : N * nat => offset <= snd r /\ (snd r <= e \/ snd r = offset))
               (get_operation content f o2 e)).
     { intros o2 Ho2. eapply good_weaken; [apply IH; lia|]. cbn. intros r Hr. lia. }
